@@ -164,7 +164,8 @@ def apply_mutant(wt, m):
 
 def run_mutant(lane, m, args):
     wt, evd = f'/tmp/mutlane-{lane}', f'/tmp/mutev-{lane}'
-    sh(f'git -C {wt} checkout -q -- .')
+    head = sh(f'git -C {REPO} rev-parse HEAD').stdout.strip()
+    sh(f'git -C {wt} checkout -q -- . && git -C {wt} checkout -q --detach {head}')      # always the current tree, plus one mutation
     apply_mutant(wt, m)
     res = dict(id=m['id'], file=m['file'], line=m['line'], op=m['op'], before=m['before'], after=m['new_line'].strip()[:160],
                checks={}, killed_by=None, t=time.strftime('%H:%M:%S'))
